@@ -544,9 +544,10 @@ impl World {
                 let got: Vec<&str> = wd.attrs.iter().map(|a| a.name.as_str()).collect();
                 let exp: Vec<&str> = md.attrs.iter().map(|a| a.name.as_str()).collect();
                 if got != exp {
+                    // what is observed here is the *serialized* order: a serialization matter
                     self.fail(
-                        Class::OkErr,
-                        "add-attribute/hierarchy-order",
+                        Class::Reload,
+                        "structure/serialized-hierarchy-order-differs",
                         format!("serialized order {:?}, model {:?}", got, exp),
                     );
                 }
